@@ -1,4 +1,4 @@
-CONSTANTS Hosts <- H2  Weights <- WOne  StratSet <- SRR  WtSet <- OnlyFalse  RefreshLists <- Lists1  Codes <- C1
+CONSTANTS Hosts <- H2  Types <- TStatic  Weights <- WOne  StratSet <- SRR  WtSet <- OnlyFalse  RefreshLists <- Lists1  Codes <- C1
 CONSTANTS WScope <- WS20  MaxLen = 3
 SPECIFICATION WSpec
 INVARIANTS FormulaHolds ScaleInRange Monotone
